@@ -310,6 +310,68 @@ def extra(ctx):
                 print(f"  {bad}: stderr={r.stderr[-300:]!r}")
     finally:
         shutil.rmtree(base, ignore_errors=True)
+    if ctx.tier == "thorough":
+        fuzz_stage(ctx)
+
+
+def fuzz_stage(ctx):
+    """Coverage-guided stage (atheris / libFuzzer, vf/fuzz_c10.py): 8 workers x VERIF_FUZZ_RUNS executions over token
+    sequences and raw text, same exception-type oracle. A crash input becomes an ordinary C10 'text' replay."""
+    from vf.core import REPO, VERIF, write_replay
+    from vf import fuzz_c10
+
+    deps = os.path.join(str(VERIF), ".deps")
+    probe = subprocess.run([sys.executable, "-c", "import atheris"], env=dict(os.environ, PYTHONPATH=deps), capture_output=True)
+    if probe.returncode != 0:
+        subprocess.run([sys.executable, "-m", "pip", "install", "--no-index", "--find-links", "/opt/veriftools/wheels", "--target", deps, "atheris"],
+                       capture_output=True, env=dict(os.environ, PIP_NO_INDEX="1"))
+        probe = subprocess.run([sys.executable, "-c", "import atheris"], env=dict(os.environ, PYTHONPATH=deps), capture_output=True)
+    if probe.returncode != 0:
+        ctx.stats.count("fuzz_stage_skipped_no_atheris")
+        print("  fuzz stage skipped: atheris is not installable offline here")
+        return
+    runs = int(os.environ.get("VERIF_FUZZ_RUNS", "40000"))
+    base = tempfile.mkdtemp(prefix="vf-c10-fuzz-")
+    procs = []
+    try:
+        for w in range(8):
+            corp, art = os.path.join(base, f"corpus{w}"), os.path.join(base, f"art{w}")
+            os.makedirs(corp)
+            os.makedirs(art)
+            if w % 2:  # odd workers start from a few small valid programs, even ones from the empty corpus
+                for j, src in enumerate(["def 0 { a(); end; }", "macro m($a) { x($a); }\ndef 0 { ~m(1); }", "coro A { if ($A == 1) { b(); } }", "def 0 for actor 1 { switch ($A) { case 1: a(); break; default: b(); } }"]):
+                    with open(os.path.join(corp, f"s{j}"), "wb") as fh:
+                        fh.write(b"\x01" + src.encode())
+            env = dict(os.environ, PYTHONPATH=os.pathsep.join([deps, str(REPO), str(VERIF)]), PYTHONHASHSEED="0")
+            log = open(os.path.join(base, f"log{w}"), "wb")
+            procs.append((w, art, subprocess.Popen([sys.executable, "-m", "vf.fuzz_c10", corp, f"-runs={runs}", f"-seed={1 + ctx.seed * 100 + w}", "-max_len=384",
+                                                    f"-artifact_prefix={art}/", "-timeout=60"], env=env, cwd=str(VERIF), stdout=log, stderr=log)))
+        for w, art, pr in procs:
+            try:
+                pr.wait(timeout=3 * 3600)
+            except subprocess.TimeoutExpired:
+                pr.kill()
+                ctx.stats.count("fuzz_worker_timeout")
+            ctx.stats.count("fuzz_workers")
+            ctx.stats.add("fuzz_executions", runs)
+            for fn in sorted(os.listdir(art)):
+                data = open(os.path.join(art, fn), "rb").read()
+                text = fuzz_c10.decode(data)
+                st2 = type(ctx.stats)()
+                fails = check_text(text, {}, False, st2)
+                if fn.startswith("timeout") or fn.startswith("oom"):
+                    ctx.stats.count("fuzz_timeout_or_oom_artifact")
+                    continue
+                for f in fails:
+                    if f.bucket not in {b for e in ctx.known for b in e.get("buckets", [])}:
+                        path = write_replay(ID, "fuzz:" + f.bucket, {"kind": "text", "text": text}, f.message)
+                        ctx.violations.append(("fuzz:" + f.bucket, path))
+                        print(f"  fuzz:{f.bucket}: {f.message[:300]}")
+    finally:
+        for _, _, pr in procs:
+            if pr.poll() is None:
+                pr.kill()
+        shutil.rmtree(base, ignore_errors=True)
 
 
 def shrink_candidates(case):
